@@ -36,6 +36,7 @@ RULE = (
 ASSUMPTIONS = [
     'keyvalue types come from the shipped engine database (trusted input here; C16 judges it)',
     '$variables appear only in string/name-typed keyvalues known to the database and in output targets, and are always defined in the instance',
+    'keyvalues unknown to the database (no $ in them) are expected to be copied unchanged ("adds a copy of every ... entity")',
     'ANGLE_NEG_PITCH / pitch / yaw keys and io proxies are not generated (documented special cases)',
     'instance names are non-empty for collapse_one; fixup values contain no $',
     'pure-Python math/vmf only',
@@ -67,6 +68,8 @@ CLASSES = {
     'trigger_multiple': (True, [('filtername', 'name')]),
 }
 CLASS_NAMES = sorted(CLASSES)
+UNKNOWN_KEYS = ['designer_note', 'zz_custom', 'My_Annotation']
+UNKNOWN_FOLDED = {k.casefold() for k in UNKNOWN_KEYS}
 NAME_POOL = ['tgt', 'Relay_A', 'door1', 'x', 'Beam_End', '@glob', '!player', '']
 VAR_POOL = ['v', 'var', 'vab', 'Name', 'mdl']
 MATS = ['tools/toolsnodraw', 'BRICK/brickwall001a', 'dev/dev_measuregeneric01']
@@ -99,6 +102,8 @@ def _kind_of(vtype) -> str:
 
 def prepare(tier: str) -> None:
     """Load the engine database once before forking and confirm the key-kind table against it."""
+    import logging
+    logging.getLogger('srctools').setLevel(logging.CRITICAL)     # "Unknown keyvalue" warnings are expected here
     from srctools.fgd import EntityDef
     for cls, (is_brush, keys) in CLASSES.items():
         d = EntityDef.engine_def(cls)
@@ -106,6 +111,9 @@ def prepare(tier: str) -> None:
             got = _kind_of(d.kv[key].type)
             if got != kind:
                 raise HarnessError(f'key table out of date: {cls}.{key} is {got} in the database, table says {kind}')
+        for key in UNKNOWN_KEYS:
+            if key.casefold() in d.kv:
+                raise HarnessError(f'{cls}.{key} is known to the database; pick another "unknown" key')
     EntityDef.engine_def('func_instance')
     EntityDef.engine_classes()
     # reference convention sanity (C04 judges the convention itself)
@@ -186,6 +194,9 @@ def ent_desc():
             'origin': vec3(1024),
             'angles': angle_triple(),
             'keys': st.tuples(*kvs).map(lambda t: [k for k in t if k[2] is not None]),
+            # keys the engine database does not know for this class (a mapper's annotations): copied as they are
+            'extra': st.lists(st.tuples(st.sampled_from(UNKNOWN_KEYS), st.sampled_from(['opens door_a', '1 2 3', 'tgt', 'x', ''])).map(list),
+                              max_size=2, unique_by=lambda t: t[0]),
             'outs': st.lists(st.tuples(
                 st.sampled_from(['OnTrigger', 'OnUser1', 'OnStartTouch']), name_ref(),
                 st.sampled_from(['Trigger', 'Kill', 'FireUser1']), st.sampled_from(['', '1', 'a b']),
@@ -227,6 +238,7 @@ def op():
         'style': st.integers(0, 2),
         'fixval': st.lists(st.sampled_from(['door1', 'x', '5', 'Relay_A', 'q q', '']), min_size=len(VAR_POOL), max_size=len(VAR_POOL)),
         'via_text': st.booleans(),
+        'same_as_prev': st.booleans(),     # repeat the previous collapse's template / name / style / fixups at this placement
     })
 
 
@@ -235,6 +247,7 @@ def strategy(tier: str):
         'templates': st.lists(template(), min_size=1, max_size=2),
         'ops': st.lists(op(), min_size=1, max_size=4 if tier == 'quick' else 6),
         'via_text': st.booleans(),
+        'reset_warnings': st.booleans(),
     })
 
 
@@ -291,6 +304,8 @@ def build_template(tdesc):
                     ent[key] = str(val)
                 elif kind == 'sidelist':
                     pending_sidelists.append((ent, key, val))
+            for key, val in e.get('extra', []):
+                ent[key] = val
             for out, target, inp, param, delay, times in e['outs']:
                 ent.add_out(Output(out, target, inp, param, delay, times=times))
             for b in e['solids']:
@@ -497,6 +512,9 @@ def check_collapse(ctx, tsnap, new_brushes, new_ents, op_, table, R, T, node_see
             w = f'{where}.{key}'
             if key == 'classname':
                 ctx.check(nval == oval, 'keys', f'{w} changed')
+            elif key in UNKNOWN_FOLDED:
+                ctx.check(nval == oval, 'unknown_key_copied',
+                          f'{w}: a keyvalue the engine database does not know was altered by the collapse: {oval!r} -> {nval!r}')
             elif kind == 'pos':
                 want = rm.transform(parse_vec(oval), R, T)
                 try:
@@ -556,6 +574,8 @@ def check_collapse(ctx, tsnap, new_brushes, new_ents, op_, table, R, T, node_see
 
 
 def execute(desc, ctx):
+    import logging
+    logging.getLogger('srctools').setLevel(logging.CRITICAL)
     from srctools.vmf import VMF, FixupValue
     from srctools.keyvalues import Keyvalues
     from srctools.math import Vec, Matrix, Angle
@@ -569,12 +589,21 @@ def execute(desc, ctx):
         f = InstanceFile(tv)
         files.append((f, snapshot(tv), export_text(tv)))
 
+    if desc.get('reset_warnings'):
+        # public API: makes the next sighting of each unknown keyvalue the "first" one again (process-global state)
+        from srctools.instancing import reset_keyvalue_warnings
+        reset_keyvalue_warnings()
+        ctx.label('reset_warnings')
     target = VMF()
     target.create_ent('info_target', targetname='existing', origin='1 2 3')
     node_seen: set = set()
     used = {}
     any_rot = False
+    prev = None
     for n, op_ in enumerate(desc['ops']):
+        if op_.get('same_as_prev') and prev is not None:
+            op_ = dict(op_, tpl=prev['tpl'], name=prev['name'], style=prev['style'], fixval=prev['fixval'])
+        prev = op_
         ti = op_['tpl'] % len(files)
         f, tsnap, ttext = files[ti]
         used[ti] = used.get(ti, 0) + 1
@@ -609,6 +638,8 @@ def execute(desc, ctx):
         ctx.label('displacement')
     if any(e['cls'] == 'func_instance' and e['fixups'] for t in desc['templates'] for e in t['ents']):
         ctx.label('nested_instance_with_fixups')
+    if any(e.get('extra') for t in desc['templates'] for e in t['ents']) and max(used.values()) >= 2:
+        ctx.label('unknown_key_collapsed_twice')
     for t in desc['templates']:
         for e in t['ents']:
             ctx.label('cls:' + e['cls'])
@@ -756,7 +787,8 @@ def _has_cycle(desc) -> bool:
 
 SUBCHECKS = [
     Sub('collapse_one', execute, strategy=strategy, quick=800, quick_shards=8, thorough=60000, floor=30,
-        must_hit=('arbitrary_rotation', 'repeat_collapse', 'nested_instance_with_fixups', 'displacement')),
+        must_hit=('arbitrary_rotation', 'repeat_collapse', 'nested_instance_with_fixups', 'displacement',
+                  'unknown_key_collapsed_twice', 'reset_warnings')),
     Sub('collapse_all', execute_all, strategy=graph_strategy, quick=600, thorough=30000, floor=20,
         must_hit=('cyclic_graph', 'finishes', 'exceeds_limit')),
 ]
